@@ -15,8 +15,8 @@
    dur_sat x     : Duration::try_from_secs_f64(x.max(0.0)).unwrap_or(Duration::MAX).
    B2R64 x       : the real value of a finite binary64; IZR / INR : integers / naturals in R.
    retry_stepf / reconnect_stepf, loop_delays : one step of the retry / reconnect loop after a
-                   failed call with the loops' own counters (checked usize; saturating u32
-                   widened to usize), and `fuel` steps of it: the delays slept and whether the
+                   failed call with the loops' own counters (checked usize; checked-then-saturating
+                   u32 widened to usize), and `fuel` steps of it: the delays slept and whether the
                    loop panicked. These are the functions run_script executes for kinds 8/9.
    All theorems are full. *)
 From Flocq Require Import Core.
@@ -198,18 +198,25 @@ Theorem C14_retry_loop_total :
 Proof. exact retry_loop_total. Qed.
 Print Assumptions C14_retry_loop_total.
 
-(* "... and reconnect loops ...": the reconnect loop (attempt : u32 from 0, saturating_add(1),
-   `attempt as usize` handed to delay_for_attempt), every policy, every max_attempts (None =
-   unlimited, the default), every jitter stream, EVERY number of failures — in particular more
-   than 2^32 of them: it never panics, the j-th sleep is delay_for_attempt(min(j+1, u32::MAX)),
-   and with unlimited attempts and a policy other than None it never stops either *)
+(* "... and reconnect loops ...": the reconnect loop as of /repo 4ccf9b3 (attempt : u32 from 0;
+   counted = attempt.checked_add(1); the stored counter saturates at u32::MAX; the attempt is
+   refused iff max_attempts is Some(max) and counted is None or > max; `attempt as usize` handed
+   to delay_for_attempt), every policy, every max_attempts (None = unlimited, the default),
+   every jitter stream, EVERY number of failures — in particular more than 2^32 of them: it never
+   panics, the j-th sleep is delay_for_attempt(min(j+1, u32::MAX)); with unlimited attempts and a
+   policy other than None it never stops; with max_attempts(m) it sleeps exactly
+   min(fuel, m, u32::MAX) times — so max_attempts(u32::MAX) gives up after exactly 2^32 failed
+   calls (with the merely saturating counter of 0c0148b it never did: Example
+   max_attempts_u32_max_is_a_bound) *)
 Theorem C14_reconnect_loop_total :
   forall (p : reconnect_policy) (max_attempts : option N) (draws : nat -> f64) (fuel : nat),
     wf_policy p = true ->
     exists ds, loop_delays (reconnect_stepf p max_attempts draws) fuel 0 0%N = (ds, false) /\
       (forall j d, nth_error ds j = Some d ->
          delay_for_attempt p (N.min (N.of_nat (S j)) U32_MAX) (draws j) = Some (Some d)) /\
-      (p <> PNone -> max_attempts = None -> length ds = fuel).
+      (p <> PNone -> max_attempts = None -> length ds = fuel) /\
+      (p <> PNone -> forall m, max_attempts = Some m ->
+         N.of_nat (length ds) = N.min (N.of_nat fuel) (N.min m U32_MAX)).
 Proof. exact reconnect_loop_total. Qed.
 Print Assumptions C14_reconnect_loop_total.
 
